@@ -97,6 +97,15 @@ Definition write_step (s : sess) (v : list bytes) (write_delay : bool) (now : Z)
   | Ok (s1, out, o, _) => Ok (s1, out, o)
   end.
 
+(* ---- Close ---- *)
+(* UDPSession.Close, as far as the core is concerned: "try best to send all queued messages" is ONE
+   more full flush under the session mutex - no window, no congestion state is touched before it. *)
+Definition close_full (s : sess) (now : Z) : res (sess * list bytes) :=
+  match flush (core s) FLUSH_FULL now with
+  | Panic w => Panic w
+  | Ok (k1, _, o) => Ok (mkSess k1 (bufptr s), o)
+  end.
+
 (* ---- Read ---- *)
 (* len(b) = n.  Third component: the Recv call made, as (len of the buffer passed, return
    code, bytes written).
